@@ -60,10 +60,10 @@ Print Assumptions C02_no_crash.
 
 (* fire() never runs a handler: the step only appends to the FIFO and logs TFire *)
 Theorem C02_fire_only_queues : forall (K : Type) (leb : K -> K -> bool) (hs_of : nat -> list (handler K)), 
-  forall (s : state K) ctx n p acts k,
-  stack s = FBody ctx (AFire n p :: acts) :: k ->
+  forall (s : state K) ctx n p md acts k,
+  stack s = FBody ctx (AFire n p md :: acts) :: k ->
   exists s', step K leb hs_of s = Some s' /\
-    let x := Build_item p (counter s) n in
+    let x := Build_item p (counter s) n md in
     fifo s' = fifo s ++ [x] /\ heap s' = heap s /\ batch s' = batch s /\ stopped s' = stopped s /\
     stack s' = FBody ctx acts :: k /\ trace s' = trace s ++ [TFire x].
 Proof. exact fire_only_queues. Qed.
@@ -87,7 +87,7 @@ Print Assumptions C02_depth_le_active_flushes.
    descending priority ... *)
 Theorem C02_handlers_prefix : forall (K : Type) (leb : K -> K -> bool) (hs_of : nat -> list (handler K)), 
   forall prog s x, reach K leb hs_of prog s -> In x (disps (trace s)) ->
-  exists rem, invs (ictr x) (trace s) ++ rem = map hid (sort_desc K leb (hs_of (iname x))).
+  exists rem, invs (ictr x) (trace s) ++ rem = map hid (handlers_for K leb hs_of x).
 Proof. exact handlers_prefix. Qed.
 Print Assumptions C02_handlers_prefix.
 Theorem C02_handlers_sorted : forall (K : Type) (leb : K -> K -> bool), 
@@ -99,8 +99,8 @@ Print Assumptions C02_handlers_sorted.
 (* ... all of them if nobody called stop() ... *)
 Theorem C02_handlers_complete : forall (K : Type) (leb : K -> K -> bool) (hs_of : nat -> list (handler K)), 
   forall prog s x, reach K leb hs_of prog s -> In x (disps (trace s)) ->
-  In (TDone (ictr x)) (trace s) -> (forall h, ~ In (TStop (ictr x) h) (trace s)) ->
-  invs (ictr x) (trace s) = map hid (sort_desc K leb (hs_of (iname x))).
+  In (TDone (ictr x)) (trace s) -> (forall h, ~ In (TStop (ictr x) h) (trace s)) -> imode x <> MPreStop ->
+  invs (ictr x) (trace s) = map hid (handlers_for K leb hs_of x).
 Proof. exact handlers_complete. Qed.
 Print Assumptions C02_handlers_complete.
 (* ... and after stop() no further handler runs for that event; the stopping handler is an invoked one *)
@@ -114,6 +114,21 @@ Theorem C02_stopper_invoked : forall (K : Type) (leb : K -> K -> bool) (hs_of : 
   In (TStop e h) (trace s) -> In h (invs e (trace s)).
 Proof. exact stopper_was_invoked. Qed.
 Print Assumptions C02_stopper_invoked.
+
+(* a cancelled event occupies its slot of the pass (it is popped: TDisp) but no handler ever runs for it;
+   an event on which stop() was called from outside before its dispatch gets at most one handler (by
+   C02_handlers_prefix: the highest-priority one) — `event.stopped` is only looked at after a handler returned.
+   The property's stop clause speaks of a handler calling stop(), so it does not constrain this case. *)
+Theorem C02_cancelled : forall (K : Type) (leb : K -> K -> bool) (hs_of : nat -> list (handler K)),
+  forall prog s x, reach K leb hs_of prog s -> In x (disps (trace s)) ->
+  imode x = MCancel -> invs (ictr x) (trace s) = [].
+Proof. exact cancelled_no_handlers. Qed.
+Print Assumptions C02_cancelled.
+Theorem C02_prestopped : forall (K : Type) (leb : K -> K -> bool) (hs_of : nat -> list (handler K)),
+  forall prog s x, reach K leb hs_of prog s -> In x (disps (trace s)) ->
+  imode x = MPreStop -> length (invs (ictr x) (trace s)) <= 1.
+Proof. exact prestopped_at_most_one. Qed.
+Print Assumptions C02_prestopped.
 
 (* what the executable [run] computes is reachable, so all of the above applies to it *)
 Theorem C02_run_reach : forall (K : Type) (leb : K -> K -> bool) (hs_of : nat -> list (handler K)), 
@@ -130,12 +145,12 @@ Proof. split; red; intros; rewrite ?Z.leb_le in *; lia. Qed.
    event 2 with priority -5 during the pass; the priority-3 handler stops event 0, so its priority-0
    handler never runs; event 2 is dispatched in the next pass although its priority value is the smallest *)
 Definition ex_tbl : list (nat * list handlerZ) :=
-  [(0, [Build_handler 0 0%Z []; Build_handler 1 3%Z [AStop]; Build_handler 2 5%Z [AFire 1 (-5)%Z]]);
+  [(0, [Build_handler 0 0%Z []; Build_handler 1 3%Z [AStop]; Build_handler 2 5%Z [AFire 1 (-5)%Z MNormal]]);
    (1, [Build_handler 3 0%Z []])].
-Definition ex_prog : list (act Z) := [AFire 0 0%Z; AFire 1 1%Z; AFlush; AFlush].
-Definition e0 : item Z := Build_item 0%Z 0 0.
-Definition e1 : item Z := Build_item 1%Z 1 1.
-Definition e2 : item Z := Build_item (-5)%Z 2 1.
+Definition ex_prog : list (act Z) := [AFire 0 0%Z MNormal; AFire 1 1%Z MNormal; AFlush; AFlush].
+Definition e0 : item Z := Build_item 0%Z 0 0 MNormal.
+Definition e1 : item Z := Build_item 1%Z 1 1 MNormal.
+Definition e2 : item Z := Build_item (-5)%Z 2 1 MNormal.
 Example C02_ex_trace :
   trace (runZ ex_tbl 100 ex_prog) =
     [TFire e0; TFire e1; TFlushB] ++ TSnap ::
@@ -151,13 +166,13 @@ Proof. vm_compute. auto. Qed.
 (* a nested flush: the handler of event 0 fires event 1 and flushes twice; the first flush finishes the
    running pass (nothing left), the second one dispatches event 1 at depth 2 *)
 Example C02_ex_nested :
-  trace (runZ [(0, [Build_handler 0 0%Z [AFire 1 0%Z; AFlush; AFlush]]); (1, [Build_handler 1 0%Z []])]
-              100 [AFire 0 0%Z; AFire 0 0%Z; AFlush]) =
-    [TFire (Build_item 0%Z 0 0); TFire (Build_item 0%Z 1 0); TFlushB; TSnap;
-     TDisp (Build_item 0%Z 0 0); TInv 0 0 1; TFire (Build_item 0%Z 2 1); TFlushB;
-       TDisp (Build_item 0%Z 1 0); TInv 1 0 2; TFire (Build_item 0%Z 3 1); TFlushB; TSnap;
-         TDisp (Build_item 0%Z 2 1); TInv 2 1 3; TRet 2 1; TDone 2;
-         TDisp (Build_item 0%Z 3 1); TInv 3 1 3; TRet 3 1; TDone 3; TFlushE;
+  trace (runZ [(0, [Build_handler 0 0%Z [AFire 1 0%Z MNormal; AFlush; AFlush]]); (1, [Build_handler 1 0%Z []])]
+              100 [AFire 0 0%Z MNormal; AFire 0 0%Z MNormal; AFlush]) =
+    [TFire (Build_item 0%Z 0 0 MNormal); TFire (Build_item 0%Z 1 0 MNormal); TFlushB; TSnap;
+     TDisp (Build_item 0%Z 0 0 MNormal); TInv 0 0 1; TFire (Build_item 0%Z 2 1 MNormal); TFlushB;
+       TDisp (Build_item 0%Z 1 0 MNormal); TInv 1 0 2; TFire (Build_item 0%Z 3 1 MNormal); TFlushB; TSnap;
+         TDisp (Build_item 0%Z 2 1 MNormal); TInv 2 1 3; TRet 2 1; TDone 2;
+         TDisp (Build_item 0%Z 3 1 MNormal); TInv 3 1 3; TRet 3 1; TDone 3; TFlushE;
        TFlushB; TSnap; TFlushE; TRet 1 0; TDone 1; TFlushE;
      TFlushB; TSnap; TFlushE; TRet 0 0; TDone 0; TFlushE].
 Proof. vm_compute. reflexivity. Qed.
@@ -165,6 +180,23 @@ Proof. vm_compute. reflexivity. Qed.
    the generator as a task and still breaks the handler loop; the priority-0 handler never runs and the
    action after the return is dead code *)
 Example C02_ex_stop_gen :
-  trace (runZ [(0, [Build_handler 0 0%Z []; Build_handler 1 3%Z [AStop; AGen; AFire 0 0%Z]])] 100 [AFire 0 0%Z; AFlush]) =
+  trace (runZ [(0, [Build_handler 0 0%Z []; Build_handler 1 3%Z [AStop; AGen; AFire 0 0%Z MNormal]])] 100 [AFire 0 0%Z MNormal; AFlush]) =
     [TFire e0; TFlushB; TSnap; TDisp e0; TInv 0 1 1; TStop 0 1; TGen 0 1; TRet 0 1; TDone 0; TFlushE].
+Proof. vm_compute. reflexivity. Qed.
+(* a raise does not end the handler loop nor the pass: handler 1 of event 0 raises, the dispatcher queues
+   `exception` (name 98, id 2), handler 0 still runs, event 1 is dispatched, `exception` in the next pass;
+   event 3 is cancelled right after fire (popped, no handler), event 4 was stopped before its dispatch (only its
+   highest-priority handler runs) *)
+Example C02_ex_raise_cancel_prestop :
+  trace (runZ [(0, [Build_handler 0 0%Z []; Build_handler 1 3%Z [ARaise [(98, 0%Z)]; AStop]]); (1, [Build_handler 2 0%Z []])]
+              200 [AFire 0 0%Z MNormal; AFire 1 0%Z MNormal; AFlush; AFire 0 0%Z MCancel; AFire 0 0%Z MPreStop; AFlush]) =
+    [TFire (Build_item 0%Z 0 0 MNormal); TFire (Build_item 0%Z 1 1 MNormal); TFlushB; TSnap;
+     TDisp (Build_item 0%Z 0 0 MNormal); TInv 0 1 1; TRaise 0 1; TFire (Build_item 0%Z 2 98 MNormal); TRet 0 1;
+       TInv 0 0 1; TRet 0 0; TDone 0;
+     TDisp (Build_item 0%Z 1 1 MNormal); TInv 1 2 1; TRet 1 2; TDone 1; TFlushE;
+     TFire (Build_item 0%Z 3 0 MCancel); TFire (Build_item 0%Z 4 0 MPreStop); TFlushB; TSnap;
+     TDisp (Build_item 0%Z 2 98 MNormal); TDone 2;
+     TDisp (Build_item 0%Z 3 0 MCancel); TDone 3;
+     TDisp (Build_item 0%Z 4 0 MPreStop); TInv 4 1 1; TRaise 4 1; TFire (Build_item 0%Z 5 98 MNormal); TRet 4 1; TDone 4;
+     TFlushE].
 Proof. vm_compute. reflexivity. Qed.
